@@ -431,6 +431,8 @@ Fixpoint package_of (items : list Item) : option Path :=
 (* impl Parser for File *)
 Definition p_file (df : nat) : parser File :=
   fun input =>
+    (* a document may consist of blanks only: the leading blank is skipped before the loop (since /repo 25b7876) *)
+    do input, _ <- opt p_blank input ;;
     do remain, items <- many_till lf (fun i => do i, _ <- opt p_blank i ;;
                                                do i, it <- p_item df i ;;
                                                do i, _ <- opt p_blank i ;; POk i it) eof input ;;
